@@ -20,7 +20,17 @@ impl LintPass for OverlappingFunctionCheck {
             // NOTE: We only give an error for the first line of a function,
             //       even though there may be many overlapping instructions.
             //       This is done to not overwhelm the user with errors.
-            if node.functions().len() > 1 && node.is_function_entry_with_func().is_some() {
+            //       Functions can also meet in the middle (a jump into a common
+            //       tail): there the first shared instruction is reported, the
+            //       one that some predecessor does not share.
+            let shared_by = node.functions().len();
+            let is_entry = node.is_function_entry_with_func().is_some();
+            let sharing_starts_here = !is_entry
+                && node
+                    .prevs()
+                    .iter()
+                    .any(|prev| prev.functions().len() < shared_by);
+            if shared_by > 1 && (is_entry || sharing_starts_here) {
                 // HACK: Create a dummy label with the same name
                 let labels = node.labels();
                 let labels = labels
@@ -36,12 +46,15 @@ impl LintPass for OverlappingFunctionCheck {
                 // cannot be compared: the labels may sit in different files)
                 let label = labels.iter().min_by(|a, b| a.name.cmp(&b.name));
 
-                if let Some(l) = label {
-                    errors.push(LintError::NodeInManyFunctions(
-                        ParserNode::Label(l.clone()),
-                        node.functions().clone().into_iter().collect::<Vec<_>>(),
-                    ));
-                }
+                // An instruction without a label stands for itself
+                let place = match label {
+                    Some(l) => ParserNode::Label(l.clone()),
+                    None => node.node().clone(),
+                };
+                errors.push(LintError::NodeInManyFunctions(
+                    place,
+                    node.functions().clone().into_iter().collect::<Vec<_>>(),
+                ));
             }
         }
     }
